@@ -47,6 +47,9 @@ def api_lookup(ck):
     for f in future:
         reqs.append(api.R("GET", "/robustirc/v1/%s/messages" % f, "a1"))
         reqs.append(api.R("GET", "/robustirc/v1/%s/messages" % f, "e"))
+    nfuture = len(reqs)
+    for k in ("4", "5", "6"):      # sessions that ended before they ever logged in (deleted fresh / after NICK only / own QUIT after NICK only)
+        reqs.append(api.R("GET", "/robustirc/v1/{%s}/messages" % k, "a" + k))
     reqs.append(api.R("GET", "/robustirc/v1/{3}/messages", "a3"))
     line = "api lookup " + " ".join(ops + reqs)
     # ---- the state machine lags behind the log (replay after a restart, slow apply, follower catching up): the apply gate of
@@ -85,10 +88,18 @@ def api_lookup(ck):
     ck.add_obligation(True, "API lookup probe ran")
     obs = [o for o in res[0][2:] if o["op"] == "R"]
     n = 0
-    for o in obs:
+    for oi, o in enumerate(obs):
         path = api.unhx(o["p"]).decode("latin-1")
         status = int(o["status"])
         n += 1
+        if nfuture <= oi < nfuture + 3:
+            if status == 200 or o["class"] == "handled":
+                ck.violation("c17:api:deleted-session-found", {
+                    "what": "GET %s with the secret of a session that ended before it ever logged in (DELETE answered 200 / its QUIT was committed) was "
+                            "answered %d (%s): the deleted session is still found" % (path, status, o["class"]),
+                    "cases": [line], "how_to_replay": "bin/check C17"}, concrete=True)
+                break
+            continue
         if "/{3}/" in path or path.endswith("/messages") and o is obs[-1]:
             continue
         hdr_empty = o["h"] in ("!", "-")
